@@ -400,6 +400,26 @@ def coq_eval(ctx, files):
                              "keval-" + os.path.basename(p)[:-5])
     return {"kernel_evaluated_ops": total, "kernel_evaluated_files": len(samples)}
 
+def coqchk_leg(ctx):
+    """thorough tier: the compiled property file and everything it depends on are re-checked by the
+    independent checker coqchk, which also lists the axioms they rely on (cached per build)."""
+    th = ctx.cfg.get("theorem")
+    if not th or not os.path.exists(os.path.join(COQ, th[:-2] + ".vo")):
+        return {}
+    out_path = os.path.join(ctx.build.dir, "coqchk-%s.txt" % ctx.prop)
+    if not os.path.exists(out_path):
+        mod = "GoArt." + th[:-2].replace("/", ".")
+        rc, out = sh("coqchk -silent -o -Q . GoArt %s 2>&1" % mod, 3400, COQ)
+        open(out_path, "w").write("rc=%d\n%s" % (rc, out))
+    txt = open(out_path).read()
+    rc = int(re.match(r'rc=(\d+)', txt).group(1))
+    axioms = re.findall(r'\* Axioms:\s*\n((?:.*\n)*?)\n', txt + "\n\n")
+    res = {"coqchk_rc": rc, "coqchk_summary": txt[-1200:]}
+    if rc != 0:
+        report_violation(ctx, "proof", "coqchk rejects the compiled development of %s — no input on which the property itself fails was found" % th,
+                         {"broken": "coqchk " + th, "output": txt[-2000:]}, "coqchk")
+    return res
+
 def run_property(ctx):
     cfg = ctx.cfg
     special = cfg.get("special")
@@ -433,6 +453,8 @@ def run_property(ctx):
         fn = getattr(vspecial, "extra_" + special, None)
         if fn:
             extra = fn(ctx) or {}
+    if ctx.tier == "thorough":
+        extra.update(coqchk_leg(ctx))
     all_files = sorted(glob.glob(os.path.join(ctx.work, "*", "*.cmds")))
     extra.update(coq_eval(ctx, [f for f in all_files if "_386" not in f and "keval_" not in f]))
     proof = proof_leg(ctx)
